@@ -48,7 +48,7 @@ def check_handler_attrs(eng, run, rule: str, module_prefixes: tuple[str, ...], m
                     if attrs is None:
                         continue
                     for u in uses:
-                        if u not in attrs:
+                        if u not in attrs and not _all_uses_guarded(eng, fn, h, u):
                             bad.append((cls, u))
                 for cls, u in bad[:1]:
                     node = next(a for a in ast.walk(h) if isinstance(a, ast.Attribute) and a.attr == u and isinstance(a.value, ast.Name) and a.value.id == h.name)
@@ -118,3 +118,65 @@ def check_shared_future_awaits(eng, run, rule: str, minimum: int = 1) -> None:
                                     "cancels the future itself, so the next call that waits on it returns at once (a stopped server cannot serve again)")
                     run.ob(rule, f"{ci.name}.{m.name}:await {attr}:shielded", bool(shielded))
     run.floor(f"{rule} awaits on futures shared through an attribute", n, minimum)
+
+
+def _all_uses_guarded(eng, fn, h: ast.ExceptHandler, attr: str) -> bool:
+    """every read of exc.<attr> in the arm is evaluated only after isinstance(exc, T) held, T having the attribute: an earlier
+    operand of the same `and`, or the test of an enclosing `if` (body side)"""
+    pm = {}
+    for p_ in ast.walk(h):
+        for c_ in ast.iter_child_nodes(p_):
+            pm[c_] = p_
+
+    def narrowing(test) -> bool:
+        for c in ast.walk(test):
+            if isinstance(c, ast.Call) and isinstance(c.func, ast.Name) and c.func.id == "isinstance" and len(c.args) == 2 and isinstance(c.args[0], ast.Name) and c.args[0].id == h.name:
+                classes = eng.lattice.handler_classes(fn, c.args[1]) or []
+                if classes and all(attr in (eng.lattice.instance_attrs(k) or set()) for k in classes):
+                    return True
+        return False
+
+    uses = [a for a in ast.walk(h) if isinstance(a, ast.Attribute) and a.attr == attr and isinstance(a.value, ast.Name) and a.value.id == h.name and isinstance(a.ctx, ast.Load)]
+    for u in uses:
+        ok = False
+        x = u
+        while x in pm and not ok:
+            p_ = pm[x]
+            if isinstance(p_, ast.BoolOp) and isinstance(p_.op, ast.And):
+                idx = next(i for i, v in enumerate(p_.values) if v is x)
+                ok = any(narrowing(v) for v in p_.values[:idx])
+            elif isinstance(p_, ast.If) and any(x is b for b in p_.body):
+                t = p_.test
+                ok = narrowing(t) and (not isinstance(t, ast.BoolOp) or isinstance(t.op, ast.And))
+            elif isinstance(p_, ast.IfExp) and x is p_.body:
+                ok = narrowing(p_.test)
+            x = p_
+        if not ok:
+            return False
+    return bool(uses)
+
+
+def check_crossed_keywords(eng, run, rule: str, module_prefixes: tuple[str, ...], minimum: int) -> None:
+    """f(a_timeout=b_timeout, b_timeout=a_timeout): two keyword arguments of one call whose values are each other's namesakes"""
+    from ..db import dotted
+    n = 0
+    for fn in eng.db.all_functions():
+        if isinstance(fn.node, ast.Lambda) or not fn.module.name.startswith(tuple("easynetwork." + p for p in module_prefixes)):
+            continue
+        for c in own_nodes(fn.node):
+            if not isinstance(c, ast.Call):
+                continue
+            kws = [(k.arg, (dotted(k.value) or "").split(".")[-1].lstrip("_")) for k in c.keywords if k.arg and dotted(k.value)]
+            if len(kws) < 2:
+                continue
+            n += 1
+            crossed = []
+            for i, (k1, v1) in enumerate(kws):
+                for k2, v2 in kws[i + 1:]:
+                    if k1 != k2 and v1 != v2 and v1.endswith(k2) and v2.endswith(k1) and not v1.endswith(k1) and not v2.endswith(k2):
+                        crossed.append((k1, v1, k2, v2))
+            for k1, v1, k2, v2 in crossed[:1]:
+                run.finding(rule, fn, c, f"`{k1}={v1}` and `{k2}={v2}` are crossed over in `{ast.unparse(c.func)}(...)`: each parameter receives the value configured for the other one")
+            if crossed or sum(1 for k, v in kws if v.endswith(k)) >= 2:
+                run.ob(rule, f"{fn.short}:{ast.unparse(c.func)[:40]}@{c.lineno - fn.lineno}:keywords-not-crossed", not crossed)
+    run.floor(f"{rule} calls with two or more named keyword arguments", n, minimum)
